@@ -28,13 +28,16 @@ RULE = ("values of all eight record kinds built from real types (chunks with 0/1
         "every offset (small records) or 40 offsets, single-bit flips, kind byte 8..255 and non-canonical integer forms of "
         "the tag (cc/cd/ce/cf/d0..d3), bin8 / map forms of the header, trailing garbage, empty/1/2-byte values, str and "
         "array-of-int encodings of a chunk; plus the exhaustive sweep of all 2^24 three-byte headers through "
-        "RecordHeader::from_record.  Distinct/non-trivial by (op, kind, outcome class, size class)")
+        "RecordHeader::from_record; every Request / Response variant (all NetworkAddress forms, Ok and eleven Err payloads, "
+        "0-40 keys / proofs / peers) through the CBOR codec functions and rmp-serde, and truncations / bit flips of the CBOR.  Distinct/non-trivial by (op, kind, outcome class, size class)")
 ASSUMPTIONS = [
     "serde-derive symmetry (Deserialize inverts Serialize for the derived types) and the totality of the third-party typed "
     "decoders (rmp-serde, blsttc point validation, bytes) are validated by the correspondence run, not proved",
     "the recorded serde call tree (harness module rec) is normalised as documented in coq/lib/Serde.v; "
     "XorName::from_content is SHA3-256 (checked against hashlib on every decoded chunk)",
-    "Request/Response messages through the libp2p CBOR codec are NOT covered by this check (see notes/C12.md)"]
+    "Request/Response messages: every variant is sent through the two cbor4ii functions libp2p's request_response::cbor codec "
+    "consists of (its Codec type is private) and must come back equal; malformed CBOR must not panic. There is no Coq model "
+    "of CBOR: on the model side only the messages' serde trees are tied to Msgpack.mp_encode (byte-for-byte vs rmp-serde)"]
 
 PINNED = {"ChunkWithPayment": 0, "Chunk": 1, "Transaction": 2, "Register": 3, "RegisterWithPayment": 4,
           "Scratchpad": 5, "ScratchpadWithPayment": 6, "TransactionWithPayment": 7}
@@ -214,7 +217,7 @@ def rnd_value(rng, kind, quick):
 def gen_records(ctx):
     rng, quick = ctx.rng, ctx.tier == "quick"
     cases = [{"op": "headers"}, {"op": "sweep"}]
-    n = 14 if quick else 150
+    n = 10 if quick else 150
     for kind in KINDS:
         for _ in range(n):
             c = {"op": "record", "kind": kind, "v": rnd_value(rng, kind, quick)}
@@ -227,6 +230,119 @@ def gen_records(ctx):
     cases.append({"op": "record", "kind": "Chunk", "v": {"data": {"gen": [4 * 1024 * 1024, 12345]}}})
     cases.append({"op": "record", "kind": "ChunkWithPayment", "v": {"data": {"gen": [70000, 5]}}, "proof": rnd_proof(rng)})
     return cases
+
+
+def rnd_addr(rng):
+    t = rng.choice(["peer", "chunk", "tx", "reg", "pad", "key"])
+    a = {"t": t}
+    if t in ("peer", "reg", "pad"):
+        a["i"] = rng.randrange(8)
+    if t in ("chunk", "tx", "reg"):
+        a["x"] = rnd_hex(rng, 32)
+    if t == "key":
+        a["x"] = rnd_hex(rng, rng.choice([0, 1, 32, 40]))
+    return a
+
+
+def rnd_rtype(rng):
+    t = rng.choice(["chunk", "pad", "non"])
+    return {"t": t, "x": rnd_hex(rng, 32)} if t == "non" else {"t": t}
+
+
+ERRORS = ["ChunkDoesNotExist", "RegisterNotFound", "RegisterAlreadyClaimed", "RegisterRecordNotFound",
+          "ReplicatedRecordNotFound", "GetStoreQuoteFailed", "QuoteGenerationFailed", "RecordHeaderParsingFailed",
+          "RecordParsingFailed", "ScratchpadCipherTextInvalid", "UserDataDirectoryNotObtainable"]
+
+
+def rnd_err(rng):
+    return {"e": rng.choice(ERRORS), "a": rnd_addr(rng), "b": rnd_addr(rng), "x": rnd_hex(rng, 32), "i": rng.randrange(8)}
+
+
+def rnd_res(rng, ok):
+    return rnd_err(rng) if rng.random() < 0.4 else ok()
+
+
+def rnd_proofs(rng):
+    return [[rnd_addr(rng), rnd_res(rng, lambda: {"data": rnd_hex(rng, rng.choice([0, 10, 300])), "nonce": rnd_u64(rng)})]
+            for _ in range(rng.choice([0, 1, 2, 5]))]
+
+
+def rnd_text(rng):
+    return rng.choice(["", "bad quoting", "x" * 31, "y" * 32, "z" * 300, "caf\u00e9 \u2603 \U0001f600"]).encode("utf-8").hex()
+
+
+def rnd_request(rng, m):
+    if m == "Replicate":
+        return {"m": m, "holder": rnd_addr(rng), "keys": [[rnd_addr(rng), rnd_rtype(rng)] for _ in range(rng.choice([0, 1, 3, 15, 16, 40]))]}
+    if m == "PeerConsideredAsBad":
+        return {"m": m, "a": rnd_addr(rng), "b": rnd_addr(rng), "text": rnd_text(rng)}
+    if m == "GetStoreQuote":
+        return {"m": m, "a": rnd_addr(rng), "nonce": None if rng.random() < 0.4 else rnd_u64(rng), "n": rnd_u64(rng)}
+    if m in ("GetReplicatedRecord", "GetRegisterRecord"):
+        return {"m": m, "a": rnd_addr(rng), "b": rnd_addr(rng)}
+    if m == "GetChunkExistenceProof":
+        return {"m": m, "a": rnd_addr(rng), "nonce": rnd_u64(rng), "n": rnd_u64(rng)}
+    if m == "CheckNodeInProblem":
+        return {"m": m, "a": rnd_addr(rng)}
+    return {"m": "GetClosestPeers", "a": rnd_addr(rng), "n": None if rng.random() < 0.4 else rnd_u64(rng),
+            "range": None if rng.random() < 0.4 else rnd_hex(rng, 32), "sign": rng.random() < 0.5}
+
+
+REQUESTS = ["Replicate", "PeerConsideredAsBad", "GetStoreQuote", "GetReplicatedRecord", "GetRegisterRecord",
+            "GetChunkExistenceProof", "CheckNodeInProblem", "GetClosestPeers"]
+RESPONSES = ["Replicate", "PeerConsideredAsBad", "GetStoreQuote", "CheckNodeInProblem", "GetReplicatedRecord",
+             "GetRegisterRecord", "GetChunkExistenceProof", "GetClosestPeers"]
+MADDRS = ["/ip4/127.0.0.1/udp/1234/quic-v1", "/ip4/10.0.0.1/tcp/80", "/ip6/::1/udp/9/quic-v1", "/dns4/example.org/tcp/443/ws"]
+
+
+def rnd_response(rng, m):
+    if m in ("Replicate", "PeerConsideredAsBad"):
+        return {"m": m, "r": rnd_res(rng, lambda: {})}
+    if m == "GetStoreQuote":
+        q = rnd_proof(rng)
+        while not q:
+            q = rnd_proof(rng)
+        return {"m": m, "r": rnd_res(rng, lambda: {"q": q[0]}), "a": rnd_addr(rng), "proofs": rnd_proofs(rng)}
+    if m == "CheckNodeInProblem":
+        return {"m": m, "a": rnd_addr(rng), "b": rnd_addr(rng), "flag": rng.random() < 0.5}
+    if m in ("GetReplicatedRecord", "GetRegisterRecord"):
+        return {"m": m, "r": rnd_res(rng, lambda: {"a": rnd_addr(rng), "data": rnd_data(rng)})}
+    if m == "GetChunkExistenceProof":
+        return {"m": m, "proofs": rnd_proofs(rng)}
+    return {"m": "GetClosestPeers", "a": rnd_addr(rng),
+            "peers": [[rnd_addr(rng), [rng.choice(MADDRS) for _ in range(rng.randrange(3))]] for _ in range(rng.choice([0, 1, 5, 20]))],
+            "sig": None if rng.random() < 0.5 else rnd_hex(rng, rng.choice([0, 64]))}
+
+
+def gen_messages(ctx):
+    rng = ctx.rng
+    n = 4 if ctx.tier == "quick" else 60
+    cases = []
+    for m in REQUESTS:
+        cases += [{"op": "msg", "ty": "request", "v": rnd_request(rng, m)} for _ in range(n)]
+    for m in RESPONSES:
+        cases += [{"op": "msg", "ty": "response", "v": rnd_response(rng, m)} for _ in range(n)]
+    return cases
+
+
+def gen_malformed_messages(ctx):
+    rng, quick = ctx.rng, ctx.tier == "quick"
+    out = [{"op": "msg_decode", "family": "short", "bytes": b.hex()} for b in
+           [b"", b"\xa1", b"\xa0", b"\x80", b"\xf6", b"\xa1\x63Cmd", b"\xa1\x63Cmd\xa1", b"\xbf\xff", b"\x9f\xff", b"\xa1\x65Query\xf6",
+            b"\xff", b"\x1b\xff\xff\xff\xff\xff\xff\xff\xff", b"\x5b\xff\xff\xff\xff\xff\xff\xff\xff", b"\x9b\xff\xff\xff\xff\xff\xff\xff\xff",
+            b"\xbb\xff\xff\xff\xff\xff\xff\xff\xff", b"\x7b\xff\xff\xff\xff\xff\xff\xff\xff", b"\xc0\x00", b"\xd8\x18\x40"]]
+    pool = [o["cbor"] for c, o in SEEN if c.get("op") == "msg" and o and o.get("cbor")]
+    rng.shuffle(pool)
+    for h in pool[:12 if quick else 80]:
+        b = bytes.fromhex(h)
+        for k in (range(len(b)) if len(b) < 120 else sorted(rng.sample(range(len(b)), 40))):
+            out.append({"op": "msg_decode", "family": "truncate", "bytes": b[:k].hex()})
+        for _ in range(15 if quick else 60):
+            m = bytearray(b)
+            m[rng.randrange(len(m))] ^= 1 << rng.randrange(8)
+            out.append({"op": "msg_decode", "family": "bitflip", "bytes": bytes(m).hex()})
+        out.append({"op": "msg_decode", "family": "trailing", "bytes": (b + b"\x00").hex()})
+    return out
 
 
 def gen_malformed(ctx):
@@ -259,16 +375,16 @@ def gen_malformed(ctx):
     per_kind = {}
     for c, o in pool:
         per_kind.setdefault(c["kind"], []).append((c, o))
-    take = 3 if quick else 12
+    take = 2 if quick else 12
     for kind in KINDS:
         for c, o in sorted(per_kind.get(kind, []), key=lambda co: co[1]["len"])[:take] + per_kind.get(kind, [])[:take]:
             b = bytes.fromhex(o["bytes"])
             if len(b) > 6000:
                 continue
-            offs = range(len(b)) if len(b) <= (140 if quick else 400) else sorted(rng.sample(range(len(b)), 40 if quick else 120))
+            offs = range(len(b)) if len(b) <= (100 if quick else 400) else sorted(rng.sample(range(len(b)), 30 if quick else 120))
             for k in offs:
                 add("truncate", kind, b[:k])
-            for _ in range(12 if quick else 60):
+            for _ in range(8 if quick else 60):
                 i = rng.randrange(len(b))
                 m = bytearray(b)
                 m[i] ^= 1 << rng.randrange(8)
@@ -282,7 +398,7 @@ def gen_malformed(ctx):
             add("noncanonical-tag", kind, b"\x91\xcc" + b[1:])
             add("noncanonical-tag", kind, b"\x91\xcd\x00" + b[1:])
     # random windows for the header layer
-    for _ in range(300 if quick else 5000):
+    for _ in range(200 if quick else 5000):
         w = bytes([rng.choice([0x91, 0x91, 0x81, 0xc4, 0x92, 0x90, rng.randrange(256)]),
                    rng.choice([rng.randrange(8), 0xcc, 0xd0, 0xcd, 1, 0, rng.randrange(256)]), rng.randrange(256)])
         add("window", "Chunk", w + b"\xc4\x00")
@@ -355,6 +471,20 @@ def oracle(c, o):
                 v.append(("wire-format", "%s bytes differ from header ++ compact msgpack of the value's serde tree" % kind))
         if not o.get("tree_same") and o["rt_ok"]:
             v.append(("roundtrip", "%s decodes to a value with a different serde tree" % kind))
+    elif c["op"] == "msg":
+        if not (o["cbor_ok"] and o["cbor_rt"]):
+            v.append(("message-roundtrip", "%s %s does not survive the CBOR wire codec (decoded=%s, equal=%s)"
+                      % (c["ty"], c["v"]["m"], o["cbor_ok"], o["cbor_rt"])))
+        if not o["rmp_rt"]:
+            v.append(("message-roundtrip", "%s %s does not survive rmp-serde (its serde impls are not inverse)" % (c["ty"], c["v"]["m"])))
+        if not o["cbor_within_cap"]:
+            v.append(("message-size", "%s %s encodes to %d bytes, above the codec's size cap" % (c["ty"], c["v"]["m"], o["cbor_len"])))
+    elif c["op"] == "msg_decode":
+        for ty in ("request", "response"):
+            if o[ty + "_ok"] and o[ty + "_stable"] is False:
+                v.append(("message-decode-unstable", "bytes decode as a %s that does not re-encode to an equal value" % ty))
+            if c.get("family") == "truncate" and o[ty + "_ok"]:
+                v.append(("truncated-accepted", "a strict prefix of a valid message decoded as a %s" % ty))
     elif c["op"] == "decode":
         b = bytes.fromhex(c["bytes"])
         want = from_record_spec(b)
@@ -435,6 +565,13 @@ def model_term(c, o):
         if not o.get("bytes") or o.get("tree") is None:
             return None
         return "agree_record %s %s %s" % (c_kind(c["kind"]), c_tree(o["tree"]), cbytes(o["bytes"]))
+    if c["op"] == "msg":
+        if o.get("tree") is None:
+            return "false"
+        t = c_tree(o["tree"])
+        return "wf %s && agree_encode %s %s" % (t, t, cbytes(o["rmp"]))
+    if c["op"] == "msg_decode":
+        return None
     if c["op"] == "decode":
         val = o.get("value") or {}
         if c["as"] == "Chunk":
@@ -466,11 +603,15 @@ def nontrivial(c, o):
     if c["op"] == "decode":
         val = o.get("value") or {}
         return (c["op"], c.get("family"), c["as"], o["header"], bool(val.get("ok")))
+    if c["op"] == "msg":
+        return (c["op"], c["ty"], c["v"]["m"], "e" in (c["v"].get("r") or {}), min(o["cbor_len"].bit_length(), 14))
+    if c["op"] == "msg_decode":
+        return (c["op"], c.get("family"), o["request_ok"], o["response_ok"])
     return (c["op"],)
 
 
 def tracking_oracle(c, o):
-    if c.get("op") == "record":
+    if c.get("op") in ("record", "msg"):
         SEEN.append((c, o))
     return oracle(c, o)
 
@@ -491,7 +632,7 @@ def run(ctx):
     if ctx.replay:
         ctx.pipeline(ctx.corpus(), binary, oracle, model_term, IMPORTS, nontrivial=nontrivial, show=show, relation=rel, shard_size=60)
         return
-    ctx.pipeline(ctx.corpus() + gen_records(ctx), binary, tracking_oracle, model_term, IMPORTS, nontrivial=nontrivial,
-                 show=show, relation=rel, shard_size=30)
-    ctx.pipeline(gen_malformed(ctx), binary, oracle, model_term, IMPORTS, nontrivial=nontrivial, show=show,
-                 relation=rel, shard_size=150)
+    ctx.pipeline(ctx.corpus() + gen_records(ctx) + gen_messages(ctx), binary, tracking_oracle, model_term, IMPORTS,
+                 nontrivial=nontrivial, show=show, relation=rel, shard_size=30)
+    ctx.pipeline(gen_malformed(ctx) + gen_malformed_messages(ctx), binary, oracle, model_term, IMPORTS, nontrivial=nontrivial,
+                 show=show, relation=rel, shard_size=150)
